@@ -36,7 +36,7 @@ FILE = "LdarModel/Props/C08.lean"
 # oracles (property clauses on implementation outputs)
 # ------------------------------------------------------------------------------------------------
 def oracle_step(ctx, t, res, cls):
-    (R, S, T, P, stationary, workable) = t
+    (R, S, T, P, stationary, workable) = t[:6]
     if stationary and P > 0:
         ctx.count("hyp:step-outside(stationary,P>0)")
         return  # a stationary method never accumulates minutes: outside the hypotheses
@@ -60,9 +60,27 @@ def oracle_step(ctx, t, res, cls):
         ctx.violate("C08:step:report-minutes-out-of-range", "time_surveyed outside [0, S]", inp)
 
 
-def oracle_multiday(ctx, c, res):
+def oracle_multiday(ctx, c, res, steps=None, cls="method"):
     (S, stationary, days) = c
-    inp = {"multiday": [S, stationary, [list(d) for d in days]], "impl": [[list(r), t] for (r, t) in res]}
+    inp = {"multiday": [S, stationary, [list(d) for d in days]], "cls": cls, "impl": [[list(r), t] for (r, t) in res]}
+    # the budget clauses on every real step of the continuation (resumed reports included)
+    for k, st in enumerate(steps or []):
+        if st is None:
+            continue
+        today = st["after"][0] - st["before"][0]
+        reached = st["visited"] and (st["after"][3] == 1 or today > 0)
+        info = dict(inp, failing_day=k, failing_step={"R": st["R"], "rem": st["rem"], "travel": st["travel"], "today": today,
+                                       "report_before": list(st["before"]), "report_after": list(st["after"])})
+        resumed = st["before"][0] > 0
+        tag = ":resumed" if resumed else ""
+        if st["rem"] < 0:
+            ctx.violate("C08:multiday:negative-remaining" + tag, "crew minutes remaining are negative after a step of a multi-day survey", info)
+        if reached and st["rem"] < st["travel"]:
+            ctx.violate("C08:multiday:trip-home-does-not-fit" + tag, "after a completed/partial visit of a multi-day survey the trip home exceeds the remaining minutes", info)
+        if st["travel"] + today + (st["travel"] if reached else 0) > st["R"]:
+            ctx.violate("C08:multiday:minutes-exceed-remaining" + tag, "travel + survey + trip home assigned on one day of a multi-day survey exceed the crew's minutes", info)
+        if today < 0:
+            ctx.violate("C08:multiday:negative-minutes" + tag, "negative survey minutes on a day of a multi-day survey", info)
     total = 0
     for (rep, today) in res:
         total += today
@@ -87,6 +105,7 @@ def oracle_day(ctx, case, r, check_requeue=True):
     (cls, stationary, cost_type, unit_cost, budget, crews, consider_weather, reqs) = case[:8]
     inp = {"day": CC.case_json(case)}
     n_crews = 1 if stationary else crews
+    reqs = [C.req_fields(q) for q in reqs]
     by_site = {("s%d" % q[0]): q for q in reqs}
     # per-crew minutes incl. trip home
     crew_ids = sorted({t["crew"] for t in r.trace})
@@ -114,7 +133,7 @@ def oracle_day(ctx, case, r, check_requeue=True):
         queued, done = _requeue(r)
     for sid, q in by_site.items():
         if not CC.model_workable(case, q):
-            before = (q[2], 0, q[4], 0, int(q[3]))
+            before = (q[2], q[8], q[4], 0, int(q[3]))
             if r.reports.get(sid) != before:
                 ctx.violate("C08:day:unworkable-report-changed", "report of a site with unworkable weather was modified", inp)
             if queued is not None and (sid in done or len(queued.get(sid, [])) != 1):
@@ -132,7 +151,7 @@ def _requeue(r):
 # stages
 # ------------------------------------------------------------------------------------------------
 def stage_steps(ctx):
-    tuples = list(CC.step_tuples())
+    tuples = list(CC.with_stale_today(CC.step_tuples()))
     for cls in ("method", "component"):
         ts = tuples
         if cls == "component" and ctx.quick:
@@ -142,7 +161,9 @@ def stage_steps(ctx):
             b = CC.step_branch(t, res)
             ctx.count("step:" + b)
             if not (t[4] and t[3] > 0):
-                ctx.nontrivial.add(("step", cls, t[4], b, min(t[2], 2), t[3] > 0, t[0] == t[1] + 2 * t[2] - t[3]))
+                ctx.nontrivial.add(("step", cls, t[4], b, min(t[2], 2), t[3] > 0, t[0] == t[1] + 2 * t[2] - t[3], t[6] > 0))
+            if t[6] > 0:
+                ctx.count("step:resumed-with-stale-today")
     ctx.exhaustive = True
     ctx.sample({"step": [24, 8, 4, 0, False, True], "impl": "rem 8 surveyed 8 complete"})
 
@@ -156,12 +177,15 @@ def stage_multiday(ctx):
     cases += small
     cases += [CC.random_multiday(ctx.rng) for _ in range(ctx.pick(5000, 150000))]
     cases += [CC.random_multiday(ctx.rng, big=True) for _ in range(ctx.pick(600, 15000))]
+    cases += [CC.long_multiday(ctx.rng) for _ in range(ctx.pick(1500, 40000))]
     for cls in ("method", "component"):
         sub = cases if cls == "method" else cases[:: ctx.pick(6, 3)]
-        for (c, res) in CC.correspond_multiday(ctx, sub, cls=cls):
-            oracle_multiday(ctx, c, res)
+        for (c, res, steps) in CC.correspond_multiday(ctx, sub, cls=cls):
+            oracle_multiday(ctx, c, res, steps, cls)
             last = res[-1][0]
             ndays_worked = sum(1 for (_, t) in res if t > 0)
+            if ndays_worked >= 3:
+                ctx.count("multiday:three-or-more-crew-days")
             ctx.count("multiday:" + ("complete" if last[3] else "in-progress" if last[4] else "not-started"))
             ctx.nontrivial.add(("multi", cls, c[1], bool(last[3]), bool(last[4]), min(ndays_worked, 4)))
 
@@ -192,6 +216,38 @@ def stage_days(ctx):
     for c in cases[:2]:
         ctx.sample({"day": CC.case_json(c)})
     return cases
+
+
+def stage_campaigns(ctx):
+    """deploy_crews days that start from the reports the REAL code carried over from earlier days"""
+    camps = [six_sites_campaign()] + [CC.random_campaign(ctx.rng) for _ in range(ctx.pick(500, 8000))]
+    for camp, days in CC.correspond_campaigns(ctx, camps):
+        worked = {}
+        for d, (case, r) in enumerate(days):
+            n0 = len(ctx.violations)
+            oracle_day(ctx, case, r, check_requeue=False)
+            for v in ctx.violations[n0:]:
+                # make the failing input the campaign itself (replays from day 0 on the real objects)
+                v["signature"] = v["signature"].replace("C08:day:", "C08:campaign:")
+                v["input"] = {"campaign": camp, "failing_day": d, "day_case": v["input"].get("day")}
+            carried = sum(1 for q in case[7] if q[2] > 0 and q[8] > 0)
+            if carried:
+                ctx.count("campaign:day-with-carried-report(stale today>0)")
+            for t in r.trace:
+                if t["after"][0] > t["before"][0] or (t["after"][3] and not t["before"][3]):
+                    worked[t["site"]] = worked.get(t["site"], 0) + 1
+        long_sites = sum(1 for v in worked.values() if v >= 3)
+        if long_sites:
+            ctx.count("campaign:site-needing-3+-crew-days")
+        ctx.nontrivial.add(("campaign", camp["cls"], min(camp["crews"], 3), min(long_sites, 2), camp["weather"] is not None,
+                            min(len(days), 6)))
+    ctx.sample({"campaign": camps[0]})
+
+
+def six_sites_campaign():
+    """six 500-minute sites, 6 h workday, no travel, one crew"""
+    return {"cls": "method", "budget": 360, "crews": 1, "per_day_plan": 6, "ndays": 12,
+            "sites": [(500, 0, 0)] * 6, "weather": None}
 
 
 def stage_budget(ctx):
@@ -293,7 +349,10 @@ def wholerun_oracle(ctx):
 def run(ctx):
     ctx.rule = ("survey step: every (R<=24,S<=8,T<=4,P<=S) x deployment type x weather outcome, base class and "
                 "component-level class (exhaustive; component class subsampled by seed in quick); multi-day: all "
-                "two-day histories with S<=3,R<=5,T<=1 (subsampled in quick) + random histories of <=8 days; crew days: "
+                "two-day histories with S<=3,R<=5,T<=1 (subsampled in quick) + random histories of <=9 days incl. surveys "
+                "needing 3+ crew-days, every step also run with the stale time_surveyed_current_day a resumed report "
+                "holds; campaigns: 3..12 consecutive real deploy_crews days on the same planners (reports carried over by "
+                "the real code, plan order from the real schedule update), each day also run through the model; crew days: "
                 "random work plans in three sizes x 4 method classes x cost types, crews 0..5, partial reports, exact-fit "
                 "surveys, weather triples inside / on / outside each envelope bound; budget: workday x daylight in 0..24 "
                 "and quarter-hour daylight through the real daylight calculator; weather: real lookup cubes with unsorted "
@@ -302,6 +361,7 @@ def run(ctx):
     stage_steps(ctx)
     stage_multiday(ctx)
     stage_days(ctx)
+    stage_campaigns(ctx)
     stage_budget(ctx)
     stage_weather(ctx)
     wholerun_oracle(ctx)
@@ -316,20 +376,32 @@ def replay(ctx, data):
     from harness.adapters import crew as C
 
     inp = data.get("input", {})
-    if "step" in inp:
+    if "campaign" in inp:
+        camp = inp["campaign"]
+        camp = dict(camp, sites=[tuple(x) for x in camp["sites"]])
+        for d, (case, r) in enumerate(C.impl_campaign(camp)):
+            print("day %d impl :" % d, C.impl_day_reply(case, r))
+            print("day %d model:" % d, core.LeanDriver("drv_crew").run([C.day_line(case)])[0])
+            n0 = len(ctx.violations)
+            oracle_day(ctx, case, r, check_requeue=False)
+            for v in ctx.violations[n0:]:
+                v["signature"] = v["signature"].replace("C08:day:", "C08:campaign:") + " (day %d)" % d
+    elif "step" in inp:
         t = tuple(inp["step"])
+        t = t if len(t) > 6 else t + (0,)
         cls = inp.get("cls", "method")
-        res = C.impl_step(*t, cls=cls)
+        res = C.impl_step(*t[:6], cls=cls, today0=t[6])
         print("impl :", C.impl_step_reply(res))
-        print("model:", core.LeanDriver("drv_crew").run([C.step_line(*t)])[0])
+        print("model:", core.LeanDriver("drv_crew").run([C.step_line(*t[:6], today0=t[6])])[0])
         oracle_step(ctx, t, res, cls)
     elif "multiday" in inp:
         S, st, days = inp["multiday"]
         c = (S, st, [tuple(d) for d in days])
-        res = C.impl_multiday(*c, cls=inp.get("cls", "method"))
+        steps = []
+        res = C.impl_multiday(*c, cls=inp.get("cls", "method"), steps=steps)
         print("impl :", C.impl_multiday_reply(res))
         print("model:", core.LeanDriver("drv_crew").run([C.multiday_line(*c)])[0])
-        oracle_multiday(ctx, c, res)
+        oracle_multiday(ctx, c, res, steps, inp.get("cls", "method"))
     elif "day" in inp:
         c = CC.case_from_json(inp["day"])
         r = C.impl_day(c)
